@@ -938,8 +938,8 @@ class Gen:
         return ["cmp", r.choice(["eq", "ne"]), ["var", v()], ["const", r.choice(self.consts)]]
 
     def exists_group(self, vis, depth):
-        """pattern of an EXISTS: only constructs for which substitution (§18.6) is unambiguous:
-        triples, nested groups, UNION, OPTIONAL, FILTER, GRAPH."""
+        """pattern of an EXISTS: only constructs for which substitution (§18.6) is unambiguous and agrees with
+        evaluating the pattern under the current solution: triples, nested groups, UNION, FILTER (top level), GRAPH."""
         r = self.rng
         elts = [self.triples(vis)]
         if r.random() < 0.35:
@@ -947,8 +947,6 @@ class Gen:
             c = r.random()
             if c < 0.35:
                 elts.append(["filter", self.expr(sc, 0, vis)])
-            elif c < 0.55:
-                elts.append(["opt", ["group", [self.triples(sc)]]])
             elif c < 0.75:
                 elts.append(["union", [["group", [self.triples(sc)]], ["group", [self.triples(sc | vis)]]]])
             elif self.has_named and c < 0.9:
@@ -1670,8 +1668,6 @@ def _exists_body(a):
         return _exists_body(a[1]) and _exists_body(a[2])
     if k == "graph":
         return _exists_body(a[2])
-    if k == "leftjoin":
-        return _exists_body(a[1]) and _exists_body(a[2]) and a[4] == "none" and a[3] == ["const", "t1"]
     return False
 
 
@@ -1757,9 +1753,9 @@ def alg_in_fragment(a):
     if k == "union":
         return alg_in_fragment(a[1]) and alg_in_fragment(a[2])
     if k == "filter":
-        return exists_free(a[1]) and alg_in_fragment(a[2])
+        return alg_in_fragment(a[2])
     if k == "extend":
-        return exists_free(a[3]) and alg_in_fragment(a[1])
+        return alg_in_fragment(a[1])
     if k == "project":
         return alg_in_fragment(a[1])
     if k == "graph":
@@ -1767,7 +1763,7 @@ def alg_in_fragment(a):
     if k == "minus":
         return alg_in_fragment(a[1]) and alg_in_fragment(a[2])
     if k == "leftjoin":
-        return exists_free(a[3]) and alg_in_fragment(a[1]) and alg_in_fragment(a[2])
+        return alg_in_fragment(a[1]) and alg_in_fragment(a[2])
     return False
 
 
